@@ -87,15 +87,24 @@ class SslRecord(ParsableBase):
         if record_length > parser.unparsed_length:
             raise NotEnoughData(record_length - parser.unparsed_length)
 
+        header_length = parser.parsed_length
+
         try:
             parser.parse_numeric('message_type', 1, SslMessageType)
         except InvalidValue as e:
             six.raise_from(InvalidValue(e.value, SslMessageType), e)
 
-        parser.parse_variant('message', SslSubprotocolMessageParser(parser['message_type']))
+        message_length = record_length - padding_length - 1
+        if message_length < 0:
+            raise InvalidValue(record_length, SslRecord, 'record_length')
+
+        parser.parse_raw('message_bytes', message_length)
+        message, parsed_length = SslSubprotocolMessageParser(parser['message_type']).parse(parser['message_bytes'])
+        if parsed_length != message_length:
+            raise InvalidValue(record_length, SslRecord, 'record_length')
         parser.parse_raw('padding', padding_length)
 
-        return SslRecord(message=parser['message']), parser.parsed_length
+        return SslRecord(message=message), header_length + record_length
 
     def compose(self):
         body_composer = ComposerBinary()
